@@ -9,6 +9,7 @@ CONSTANTS
   YNorm = FALSE
   Kinds = {"mat", "pert", "resp"}
   ProdTier = "quick"
+  Seed = 1
 INVARIANT Theorems
 CONSTRAINT Emit
 CHECK_DEADLOCK FALSE
